@@ -267,7 +267,7 @@ func (s *c11Sup) run(variant string, seq []int, count bool) (res c11Result, ok b
 		s.w.stop()
 		s.w = nil
 		dump := w.stderr.String()
-		s.crashes += 5 // a hang costs the whole watchdog interval: give up sooner
+		s.crashes += 9 // a hang costs the whole watchdog interval: give up after three
 		s.note(key, "hang")
 		if count {
 			s.r.Eval(c11P, 1)
@@ -358,7 +358,7 @@ func c11HangSummary(dump string) string {
 				break
 			}
 		}
-		if k := strings.Index(fn, "("); k > 0 {
+		if k := strings.LastIndex(fn, "("); k > 0 {
 			fn = fn[:k]
 		}
 		hdr := lines[0]
@@ -389,7 +389,7 @@ func TestVerif_C11_BadServer(t *testing.T) {
 	r.Assume(c11P, "a worker that neither answers nor dies within the watchdog interval of real time is reported as a hang of the sequence in flight (only reachable when a goroutine is blocked invisibly to the bubble or spins)")
 	r.Set(c11P, "alphabet", n)
 	r.Set(c11P, "depth_bound", depth)
-	sup := &c11Sup{t: t, r: r, g: g, stall: 240 * time.Second, kinds: map[string]map[string]bool{}, unended: map[string]any{}}
+	sup := &c11Sup{t: t, r: r, g: g, stall: 120 * time.Second, kinds: map[string]map[string]bool{}, unended: map[string]any{}}
 	if v := os.Getenv("VERIF_C11_STALL_S"); v != "" {
 		var sec int
 		fmt.Sscan(v, &sec)
